@@ -2,6 +2,8 @@ import CogentModel.Model.View
 import CogentModel.Spec.PySlice
 import CogentModel.Proofs.ViewInv
 import CogentModel.Proofs.ViewSem
+import CogentModel.Proofs.ViewParent
+import CogentModel.Proofs.ViewChain
 /-! # C01 — property theorems (views obey the slice algebra)
 
 `Inv` is the representation invariant of slice records, `elems v` the list of
@@ -75,5 +77,193 @@ theorem parent_coords_defined (v : View) (h : Inv v) :
   · have h1 : v.stop < 0 := by omega
     have h2 : v.start < 0 := by omega
     simp [h.1, h1, h2]
+
+/-! ## Length kit -/
+
+/-- forward views: `len v` is the ceiling of `(stop - start) / step` -/
+theorem len_kit_fwd (v : View) (h : Inv v) (hs : 0 < v.step) :
+    0 ≤ len v ∧ v.stop - v.start ≤ len v * v.step ∧ len v * v.step < v.stop - v.start + v.step :=
+  len_fwd v h hs
+
+example : Inv { start := 1, stop := 8, step := 3, offset := 0, seqLen := 10 } ∧
+    len { start := 1, stop := 8, step := 3, offset := 0, seqLen := 10 } = 3 := by decide
+
+/-- reversed views: `len v` is the ceiling of `(start - stop) / |step|` -/
+theorem len_kit_rev (v : View) (h : Inv v) (hs : v.step < 0) :
+    0 ≤ len v ∧ v.start - v.stop ≤ len v * (-v.step) ∧
+      len v * (-v.step) < v.start - v.stop + (-v.step) :=
+  len_rev v h hs
+
+example : Inv { start := -2, stop := -9, step := -3, offset := 0, seqLen := 10 } ∧
+    len { start := -2, stop := -9, step := -3, offset := 0, seqLen := 10 } = 3 := by decide
+
+/-- the ceiling is unique -/
+theorem len_kit_unique (d k L L' : Int) (hk : 0 < k)
+    (h1 : d ≤ L * k) (h2 : L * k < d + k) (h1' : d ≤ L' * k) (h2' : L' * k < d + k) : L = L' :=
+  ceil_unique d k L L' hk h1 h2 h1' h2'
+
+example : (7 : Int) ≤ 3 * 3 ∧ (3 : Int) * 3 < 7 + 3 := by decide
+
+/-! ## Semantics -/
+
+/-- Python's own `seq[start:stop:step]` on the stored triple (what `.value` / `.str_value`
+evaluate) visits exactly `elems v`. -/
+theorem realise_eq (v : View) (h : Inv v) :
+    PySlice.sliceIdx v.seqLen.toNat (some v.start) (some v.stop) v.step = elems v :=
+  realise_eq' v h
+
+example : elems { start := -3, stop := -10, step := -2, offset := 0, seqLen := 10 } = [7, 5, 3, 1] := by rfl
+example : PySlice.sliceIdx 10 (some (-3)) (some (-10)) (-2) = [7, 5, 3, 1] := by rfl
+
+/-- Slicing a view displays exactly the Python slice of what the view displayed
+(any start/stop/step incl. `None`, negative, out of range; both `_zero_slice` flavours). -/
+theorem getitem_spec (fl : Flavour) (v w : View) (a b c : Option Int) (h : Inv v) (hc : c ≠ some 0)
+    (hw : getitemSlice fl v a b c = .ok w) :
+    elems w = (PySlice.sliceIdx (len v).toNat a b (c.getD 1)).map (fun j => first v + j * v.step) :=
+  getitemSlice_spec fl v w a b c h hc hw
+
+example : getitemSlice .seqView { start := 1, stop := 8, step := 2, offset := 0, seqLen := 10 } (some (-1)) (some 0) (some (-2))
+    = .ok { start := -3, stop := -9, step := -4, offset := 0, seqLen := 10 } := by rfl
+example : elems { start := -3, stop := -9, step := -4, offset := 0, seqLen := 10 } = [7, 3] := by rfl
+example : (PySlice.sliceIdx 4 (some (-1)) (some 0) (-2)).map (fun j => 1 + j * 2) = [7, 3] := by rfl
+
+/-- the same, phrased as Python list slicing of the displayed list -/
+theorem getitem_spec_list (fl : Flavour) (v w : View) (a b c : Option Int) (h : Inv v) (hc : c ≠ some 0)
+    (hw : getitemSlice fl v a b c = .ok w) :
+    elems w = PySlice.slice (elems v) a b (c.getD 1) := by
+  have hc0 : c.getD 1 ≠ 0 := by
+    cases c with
+    | none => simp
+    | some s => simp at hc ⊢; exact hc
+  rw [slice_elems v a b _ hc0]
+  exact getitemSlice_spec fl v w a b c h hc hw
+
+example : PySlice.slice [1, 3, 5, 7] (some (-1)) (some 0) (-2) = [7, 3] := by rfl
+
+/-- with a non-zero step, slicing a reachable view never raises -/
+theorem getitem_no_error (fl : Flavour) (v : View) (a b c : Option Int) (h : Inv v) (hc : c ≠ some 0) :
+    ∃ w, getitemSlice fl v a b c = .ok w :=
+  getitemSlice_isOk fl v a b c h hc
+
+example : getitemSlice .seqView { start := 1, stop := 8, step := 2, offset := 0, seqLen := 10 } none none (some 0)
+    = .error .valueError := by rfl
+
+/-- Integer indexing returns the one-element view of the Python-indexed position, and raises
+`IndexError` exactly when Python does. -/
+theorem getitem_int_spec (v : View) (h : Inv v) (i : Int) :
+    (∀ w, getitemInt v i = .ok w → ∃ x, PySlice.index (elems v) i = some x ∧ elems w = [x]) ∧
+    (∀ e, getitemInt v i = .error e → PySlice.index (elems v) i = none) :=
+  getitemInt_spec v h i
+
+example : getitemInt { start := -3, stop := -10, step := -2, offset := 0, seqLen := 10 } (-1)
+    = .ok { start := -9, stop := -10, step := -1, offset := 0, seqLen := 10 } := by rfl
+example : PySlice.index [7, 5, 3, 1] (-1) = some 1 := by rfl
+example : getitemInt { start := -3, stop := -10, step := -2, offset := 0, seqLen := 10 } 4 = .error .indexError := by rfl
+
+/-- The reported parent segment `parent[ps:pe]`, strided by the reported step (negative = read
+backwards), is exactly what is displayed. -/
+theorem parent_coords_exact (v : View) (h : Inv v) :
+    ∃ ps pe : Int, parentStart v = .ok (v.offset + ps) ∧ parentStop v = .ok (v.offset + pe) ∧
+      0 ≤ ps ∧ ps ≤ pe ∧ pe ≤ v.seqLen ∧
+      elems v = (PySlice.sliceIdx (pe - ps).toNat none none v.step).map (· + ps) :=
+  parent_coords_exact' v h
+
+example : parentStart { start := -3, stop := -10, step := -2, offset := 5, seqLen := 10 } = .ok (5 + 1) := by rfl
+example : parentStop { start := -3, stop := -10, step := -2, offset := 5, seqLen := 10 } = .ok (5 + 8) := by rfl
+example : (PySlice.sliceIdx 7 none none (-2)).map (· + 1) = [7, 5, 3, 1] := by rfl
+
+/-! ## Chains of any depth -/
+
+/-- the operation has no zero slice step (`seq[::0]` raises `ValueError` in Python too) -/
+def Op.stepOk : Op → Prop
+  | .slice _ _ c => c ≠ some 0
+  | .index _ => True
+
+/-- the same operation applied to a plain Python list of positions -/
+def specStep (xs : List Int) : Op → Option (List Int)
+  | .slice a b c => some (PySlice.slice xs a b (c.getD 1))
+  | .index i => (PySlice.index xs i).map fun x => [x]
+
+def specRun : List Int → List Op → Option (List Int)
+  | xs, [] => some xs
+  | xs, op :: ops => (specStep xs op).bind fun ys => specRun ys ops
+
+/-- one step of the chain -/
+theorem step_spec (fl : Flavour) (v w : View) (op : Op) (h : Inv v) (hop : op.stepOk)
+    (hw : step1 fl v op = .ok w) : specStep (elems v) op = some (elems w) := by
+  cases op with
+  | slice a b c =>
+    simp only [specStep, Option.some.injEq]
+    exact (getitem_spec_list fl v w a b c h hop hw).symm
+  | index i =>
+    obtain ⟨x, hx, hwx⟩ := (getitemInt_spec v h i).1 w hw
+    simp only [specStep, hx, Option.map_some, hwx]
+
+example : step1 .seqView { start := 1, stop := 8, step := 2, offset := 0, seqLen := 10 } (.slice none none (some (-1)))
+    = .ok { start := -3, stop := -10, step := -2, offset := 0, seqLen := 10 } ∧
+    specStep [1, 3, 5, 7] (.slice none none (some (-1))) = some [7, 5, 3, 1] := by decide
+
+/-- **Any chain of slice / index operations (any depth, no zero step) displays exactly what the
+same chain of Python list operations yields on the displayed positions.** -/
+theorem chain_spec (fl : Flavour) (ops : List Op) (v w : View) (h : Inv v)
+    (hops : ∀ op ∈ ops, op.stepOk) (hw : runOps fl v ops = .ok w) :
+    specRun (elems v) ops = some (elems w) := by
+  induction ops generalizing v with
+  | nil => simp [runOps] at hw; subst hw; rfl
+  | cons op ops ih =>
+    unfold runOps at hw
+    cases hs : step1 fl v op with
+    | error e => simp [hs] at hw
+    | ok u =>
+      simp [hs] at hw
+      have hu : Inv u := reachable_inv fl [op] v u h (by simp [runOps, hs])
+      have h1 := step_spec fl v u op h (hops op (by simp)) hs
+      unfold specRun
+      rw [h1]
+      exact ih u hu (fun o ho => hops o (by simp [ho])) hw
+
+example : runOps .seqDataView { start := 0, stop := 10, step := 1, offset := 3, seqLen := 10 }
+    [.slice (some (-4)) none none, .slice none none (some (-3))]
+    = .ok { start := -1, stop := -5, step := -3, offset := 3, seqLen := 10 } ∧
+    specRun [0, 1, 2, 3, 4, 5, 6, 7, 8, 9] [.slice (some (-4)) none none, .slice none none (some (-3))]
+    = some [9, 6] := by decide
+
+/-- a chain raises only where Python raises `IndexError` on the list (slices never raise) -/
+theorem chain_error_spec (fl : Flavour) (ops : List Op) (v : View) (e : Err) (h : Inv v)
+    (hops : ∀ op ∈ ops, op.stepOk) (hw : runOps fl v ops = .error e) :
+    specRun (elems v) ops = none := by
+  induction ops generalizing v with
+  | nil => simp [runOps] at hw
+  | cons op ops ih =>
+    unfold runOps at hw
+    cases hs : step1 fl v op with
+    | error e' =>
+      cases op with
+      | slice a b c =>
+        obtain ⟨w, hw'⟩ := getitemSlice_isOk fl v a b c h (hops (.slice a b c) (by simp))
+        simp [step1, hw'] at hs
+      | index i =>
+        have := (getitemInt_spec v h i).2 e' hs
+        simp [specRun, specStep, this]
+    | ok u =>
+      simp [hs] at hw
+      have hu : Inv u := reachable_inv fl [op] v u h (by simp [runOps, hs])
+      have h1 := step_spec fl v u op h (hops op (by simp)) hs
+      unfold specRun
+      rw [h1]
+      exact ih u hu (fun o ho => hops o (by simp [ho])) hw
+
+example : runOps .seqView { start := 0, stop := 10, step := 1, offset := 0, seqLen := 10 }
+    [.slice (some 1) (some 8) (some 2), .index 4] = .error .indexError ∧
+    specRun [0, 1, 2, 3, 4, 5, 6, 7, 8, 9] [.slice (some 1) (some 8) (some 2), .index 4] = none := by decide
+
+example : runOps .seqView { start := 0, stop := 10, step := 1, offset := 0, seqLen := 10 }
+    [.slice (some 1) (some 8) (some 2), .slice none none (some (-1)), .slice (some 1) none none, .index (-1)]
+    = .ok { start := -9, stop := -10, step := -1, offset := 0, seqLen := 10 } := by rfl
+example : specRun [0, 1, 2, 3, 4, 5, 6, 7, 8, 9]
+    [.slice (some 1) (some 8) (some 2), .slice none none (some (-1)), .slice (some 1) none none, .index (-1)]
+    = some [1] := by rfl
+example : ∀ op ∈ [Op.slice (some 1) (some 8) (some 2), .slice none none (some (-1)), .slice (some 1) none none, .index (-1)],
+    op.stepOk := by simp [Op.stepOk]
 
 end CogentModel.C01
